@@ -30,6 +30,9 @@ type BarCase struct {
 type Case struct {
 	Res  uint16
 	Bars []BarCase
+	// ExportAfter > 0: the song is exported once after that many bars have been added, then the
+	// remaining bars are added and the same song is exported again (export - edit - export)
+	ExportAfter int `json:",omitempty"`
 }
 
 type item struct {
@@ -66,7 +69,11 @@ func buildSong(c Case) *sequencer.Song {
 	s := sequencer.New()
 	s.Ticks = smf.MetricTicks(c.Res)
 	s.Title, s.Composer = "t", "c"
-	for _, b := range c.Bars {
+	for i, b := range c.Bars {
+		if c.ExportAfter > 0 && i == c.ExportAfter {
+			_ = s.ToSMF0()
+			_ = s.ToSMF1()
+		}
 		bar := sequencer.Bar{TimeSig: [2]uint8{uint8(b.Num), uint8(b.Den)}}
 		for _, e := range b.Events {
 			bar.Events = append(bar.Events, &sequencer.Event{TrackNo: e.Track, Pos: uint8(e.Pos), Duration: uint8(e.Dur), Message: smf.Message(append([]byte{}, e.Msg...))})
@@ -189,6 +196,9 @@ func run(c Case) (res ev.Result) {
 		res.Classes = append(res.Classes, "bar-with-numerator>=8")
 	}
 	res.Classes = append(res.Classes, fmt.Sprintf("bars=%d", min(len(c.Bars), 6)))
+	if c.ExportAfter > 0 {
+		res.Classes = append(res.Classes, "export-edit-export")
+	}
 
 	// ---- the library
 	var f0, f1 smf.SMF
@@ -313,11 +323,14 @@ func genCase(t *rapid.T) Case {
 		}
 		done += lens[i]
 	}
+	if nb >= 2 && rapid.IntRange(0, 3).Draw(t, "exportInBetween?") == 0 {
+		c.ExportAfter = rapid.IntRange(1, nb-1).Draw(t, "exportAfter")
+	}
 	return c
 }
 
 var songs = ev.NewCheck("C20", "songs",
-	"rapid: songs of 1..12 bars; time signatures numerator 1..24 over denominators 1,2,4,8,16,32 with bars of at most 255 thirty-seconds (biased to 6/8, 9/8, 12/8, 7/4, 15/16), bars inheriting the previous signature; resolutions divisible by 8 (24..15360); up to 8 tracks; per bar 0..5 events (NoteOn velocity > 0 with a duration ending within the song, control/program change, sysex) at any in-bar position; oracle = independent bar/grid model: bar start = sum of previous num*32/den * res/8, event at start+pos*t32, NoteOff at start+(pos+dur)*t32, time-signature event at every change relative to 4/4, every track ends at the song end, no wrapped delta; ToSMF0 and the union of ToSMF1 must equal the model (hence each other) as multisets of (tick, bytes), ToSMF1 assigns events to tracks by TrackNo; non-trivial = >= 2 bars, a bar with numerator >= 8 and an event in or after it in a later bar; distinct by case hash",
+	"rapid: songs of 1..12 bars; time signatures numerator 1..24 over denominators 1,2,4,8,16,32 with bars of at most 255 thirty-seconds (biased to 6/8, 9/8, 12/8, 7/4, 15/16), bars inheriting the previous signature; resolutions divisible by 8 (24..15360); up to 8 tracks; per bar 0..5 events (NoteOn velocity > 0 with a duration ending within the song, control/program change, sysex) at any in-bar position; in one case of four the song is exported once in the middle of being built and again at the end (export - edit - export); oracle = independent bar/grid model: bar start = sum of previous num*32/den * res/8, event at start+pos*t32, NoteOff at start+(pos+dur)*t32, time-signature event at every change relative to 4/4, every track ends at the song end, no wrapped delta; ToSMF0 and the union of ToSMF1 must equal the model (hence each other) as multisets of (tick, bytes), ToSMF1 assigns events to tracks by TrackNo; non-trivial = >= 2 bars, a bar with numerator >= 8 and an event in or after it in a later bar; distinct by case hash",
 	genCase, run)
 
 func TestPropSongs(t *testing.T) { songs.Rapid(t, 3000, 60000) }
